@@ -46,6 +46,15 @@ CHECKS = {
  "C20": ("E4 argument-domain explorer", "exhaustive grid of (w1,w2,l,t,rho,temp,tcr) on the real functions; exact-rational closed form and 12 relational laws per point",
          "Full Cartesian product of the value menus; closed form in exact rational arithmetic on the same floats.",
          "lattice, not the reals", "5"),
+ "C14": ("E2 edit-history explorer", "explicit-state breadth-first search over all edit histories (depth/deviation bounded) of the real System, replay-from-scratch, state hashing on K_full; invariant on every reached state",
+         "Every sequence of edit calls up to the bound from five seed states is executed on the real object; the well-formedness invariant is evaluated on each distinct state, after accepted and after rejected calls.",
+         "5-letter component alphabet; K_full merges only states with identical futures (argument in DESIGN A.1)", "4"),
+ "C15": ("E2 edit-history explorer", "explicit-state search over edit/configuration histories of the real System; for every rejected transition a full white-box snapshot and 7 public reports are compared before/after",
+         "All rejected calls met by the bounded search (every op kind, every rejection reason, malformed phase arguments) are checked for leaving the object bit-identical and every report unchanged.",
+         "5-letter alphabet; depth/budget bound", "4"),
+ "C16": ("E2 edit-history explorer", "explicit-state search over edit histories of the real System; per distinct state: reference edit model (mc/e2.py model_apply) conformance + differential of all reports against a fresh build of the same structure",
+         "Each distinct state reached by accepted edits is compared with the reference edit semantics applied to the same history and, report by report, with a system built from scratch; the model is bound to the code by this conformance check on every state.",
+         "reference edit semantics transcribe the documentation (sets of outcomes where it is silent); 5-letter alphabet", "4"),
 }
 NOT_YET = {}
 ALL = ["C%02d" % i for i in range(1, 21)]
